@@ -35,34 +35,49 @@ def pe_path(adt):
 
 
 def dn_arm(an, prog, b, L, signed):
-    """Under (field_length=L, signed) -> (primitive width, variant, narrowing?) or None if the arm fails."""
+    """Under (field_length=L, signed) -> (primitive width, variant, narrowing?, endian) or None if the arm fails.
+    Recognises `Ok(P(i)?).map(|(i, j)| (i, Self::V(j)))`, `P(i).map(closure)` and nom `map(P, Self::V)(i)` forms."""
     assume = {canon(("arg", 2)): L, canon(("arg", 3)): 1 if signed else 0}
     r = reach_assuming(an, b, assume)
     prims = []
     variant = None
     narrowing = None
+
+    def from_closure(clo):
+        nonlocal variant, narrowing
+        cb = prog.body(clo[1])
+        if cb is None:
+            return
+        for (bb, i, s) in block_aggs(cb):
+            if s["rv"]["adt"].endswith("::DataNumber"):
+                variant = s["rv"]["variant"]
+                pe = peel(an.op(cb, s["rv"]["ops"][0]), casts=False)
+                if pe[0] == "cast" and pe[1] == "IntToInt":
+                    fb = int(re.sub(r"\D", "", pe[4] or "") or 0)
+                    tb_ = int(re.sub(r"\D", "", pe[3]) or 0)
+                    narrowing = fb > tb_
+                else:
+                    narrowing = False
+
     for blk, t, c in b.calls():
         if blk not in r or c is None:
             continue
         p = prim_of(c)
         if p:
             prims.append(p)
-        if c.nsyn in ("std::result::Result::map",):
-            clo = peel(an.op(b, t["args"][1]), identity=(), casts=False)
-            if clo[0] == "closure":
-                cb = prog.body(clo[1])
-                if cb is not None:
-                    for (bb, i, s) in block_aggs(cb):
-                        if s["rv"]["adt"].endswith("::DataNumber"):
-                            variant = s["rv"]["variant"]
-                            pe = peel(an.op(cb, s["rv"]["ops"][0]), casts=False)
-                            if pe[0] == "cast" and pe[1] == "IntToInt":
-                                frm = pe[4] or ""
-                                fb = int(re.sub(r"\D", "", frm) or 0)
-                                tb_ = int(re.sub(r"\D", "", pe[3]) or 0)
-                                narrowing = fb > tb_
-                            else:
-                                narrowing = False
+        if c.nsyn in ("std::result::Result::map",) or c.npath in ("nom::combinator::map",):
+            for a in t["args"]:
+                e = peel(an.op(b, a), identity=(), casts=False)
+                if e[0] == "closure":
+                    from_closure(e)
+                elif e[0] == "constfn":
+                    pp = prim_of(e[1])
+                    if pp:
+                        prims.append(pp)
+                    m = re.match(r"^variable_versions::data_number::DataNumber::(\w+)$", e[1].path)
+                    if m:
+                        variant = m.group(1)
+                        narrowing = False
     if not prims and variant is None:
         return None
     return (prims[0][2] if prims else None, variant, narrowing, prims[0][3] if prims else None)
@@ -129,8 +144,43 @@ def datatype_scrutinee_rule(ctx, an, prog, rule, path, enum_path):
     ctx.ob(rule, path, "scrutinee-is-discriminant", bool(ok), why)
 
 
+def _consumers(an, prog, body, blocks_pred, argmap, depth=0):
+    """Wire-consuming calls made in the selected blocks of `body` (recursing into private helpers, with the
+    helper's parameters rewritten to the caller's argument expressions)."""
+    cons = []
+
+    def cn(e):
+        e = peel(e, widen=True)
+        if argmap:
+            e = peel(an.simp(an.interp.subst(e, argmap)), widen=True)
+        return canon(e)
+
+    for cb, tt, c in body.calls():
+        if c is None or not blocks_pred(cb):
+            continue
+        p = prim_of(c)
+        if p:
+            cons.append(("prim", p[2], p[3], c.npath))
+        elif c.npath in ("nom::bytes::complete::take", "nom::bytes::streaming::take"):
+            cons.append(("take", cn(an.op(body, tt["args"][0])), c.npath))
+        elif c.local and c.path == DN_PARSE:
+            sg = an.op(body, tt["args"][2])
+            if argmap:
+                sg = an.simp(an.interp.subst(sg, argmap))
+            cons.append(("datanumber", cn(an.op(body, tt["args"][1])), const_eval(sg)))
+        elif c.local and "nom_derive::Parse" in c.path:
+            cons.append(("enum-parser", c.path, tt["dest"]["l"], cb))
+        elif c.local and c.path in prog.bodies and depth < 3 and not prog.bodies[c.path].derived and c.kind == "Item" and not c.path.startswith("<"):
+            hb = prog.bodies[c.path]
+            sub_map = {i + 1: (an.simp(an.interp.subst(an.op(body, a), argmap)) if argmap else an.op(body, a)) for i, a in enumerate(tt["args"])}
+            sub = _consumers(an, prog, hb, lambda x: True, sub_map, depth + 1)
+            cons.append(("helper", c.path, sub, cn(an.op(body, tt["args"][-1]))))
+    return cons
+
+
 def fft_arms(an, prog):
-    """FieldDataType variant -> list of (consumer term description) in from_field_type."""
+    """FieldDataType variant -> wire consumers of from_field_type's arm (helpers flattened; the Unknown arm's
+    helper is kept as ("unknown-helper", length expr, helper path))."""
     b = prog.body(FFT)
     out = {}
     if b is None:
@@ -143,25 +193,16 @@ def fft_arms(an, prog):
                 name = [x["name"] for x in adt["variants"] if x["vi"] == v]
                 if not name:
                     continue
+                raw = _consumers(an, prog, b, lambda x, blk=blk, tb=tb: b.edge_dominates((blk, tb), x), None)
                 cons = []
-                for cb, tt, c in b.calls():
-                    if c is None or not b.edge_dominates((blk, tb), cb):
-                        continue
-                    p = prim_of(c)
-                    if p:
-                        cons.append(("prim", p[2], p[3], c.npath))
-                    elif c.npath in ("nom::bytes::complete::take", "nom::bytes::streaming::take"):
-                        n = peel(an.op(b, tt["args"][0]), widen=True)
-                        cons.append(("take", canon(n), c.npath))
-                    elif c.local and c.path == DN_PARSE:
-                        ln = peel(an.op(b, tt["args"][1]))
-                        sg = const_eval(an.op(b, tt["args"][2]))
-                        cons.append(("datanumber", canon(ln), sg))
-                    elif c.local and c.path.endswith("parse_unknown_fields"):
-                        ln = peel(an.op(b, tt["args"][-1]))
-                        cons.append(("unknown-helper", canon(ln)))
-                    elif c.local and "nom_derive::Parse" in c.path:
-                        cons.append(("enum-parser", c.path, tt["dest"]["l"], cb))
+                for c in raw:
+                    if c[0] == "helper":
+                        if name[0] == "Unknown":
+                            cons.append(("unknown-helper", c[3], c[1]))
+                        else:
+                            cons.extend(x for x in c[2] if x[0] != "helper")
+                    else:
+                        cons.append(c)
                 out[name[0]] = cons
             return out, b
     return out, b
@@ -212,58 +253,67 @@ def run(ctx, env):
         n43 += count_length_rule(ctx, prog, an, lay, "R4.3", adt)
     ctx.floor("R4.3", "v9", "count/length fields", n43, 6)
     # R4.4
-    fp = prog.body(V9 + "FieldParser::parse")
-    if ctx.anchor("R4.4", V9 + "FieldParser::parse", fp):
-        # the record loop: Range<usize> whose end is record_count
-        rng = [(blk, t) for blk, t, c in fp.calls() if c is not None and c.nsyn == "std::iter::IntoIterator::into_iter" and "std::ops::Range<usize>" in t["argtys"][0]]
+    from . import records as _rec
+    fpath = _rec.records_parser_of(lay, V9 + "Data::parse_be")
+    fp = prog.body(fpath) if fpath else None
+    if ctx.anchor("R4.4", V9 + "Data::parse_be → records parser", fp):
+        # the record loop: Range<usize> whose end is record_count (for-loop or iterator-chain form)
         ok = False
         why = "no `0..record_count` range found"
         rc = None
-        for blk, t in rng:
-            e = peel(an.op(fp, t["args"][0]))
-            if e[0] == "agg" and e[1].endswith("Range"):
+        for (blk, i, st) in block_aggs(fp):
+            if st["rv"]["adt"].endswith("ops::Range") and "usize" in "".join(st["rv"].get("targs", [])):
+                sl_ = an.slicer(fp)
+                e = an.simp(sl_.rvalue(st["rv"], blk))
                 lo, hi = peel(e[3][0]), peel(e[3][1])
                 rc = hi
                 ok = const_eval(lo) == {0}
                 why = "range %s .. %s" % (canon(lo)[:40], canon(hi)[:160])
         ctx.ob("R4.4", fp.path, "loop-is-0..record_count", ok, why)
         if rc is not None:
-            x = peel(rc, widen=False)
-            form = None
-            # checked_div(len(input), from(get_total_size(&template))).unwrap_or(0)  |  saturating_div / Div guarded
-            if x[0] == "call" and x[2].nsyn in ("std::option::Option::unwrap_or", "std::option::Option::unwrap_or_default"):
-                d = peel(x[3][0])
-                if d[0] == "call" and d[2].npath.endswith("::checked_div") and (len(x[3]) == 1 or const_eval(x[3][1]) == {0}):
-                    form = (d[3][0], d[3][1])
-            elif x[0] == "call" and re.search(r"::(saturating_div|wrapping_div|div_euclid)$", x[2].npath):
-                form = (x[3][0], x[3][1])
-            elif x[0] == "binop" and x[1] == "Div":
-                form = (x[2], x[3])
-            if form is None:
-                ctx.ob("R4.4", fp.path, "record-count-form", False, "record_count is not len / total_size: %s" % canon(x)[:240])
+            x = an.expand(rc)
+            DIVS = ("checked_div", "saturating_div", "wrapping_div", "div_euclid", "strict_div")
+            divs = find(x, lambda n: (n[0] == "call" and n[2] is not None and n[2].npath.rsplit("::", 1)[-1] in DIVS) or (n[0] == "binop" and n[1] == "Div"))
+            # distinct division nodes (the same node can be shared)
+            seen = {}
+            for d in divs:
+                seen[canon(d)] = d
+            divs = list(seen.values())
+            if len(divs) != 1:
+                ctx.ob("R4.4", fp.path, "record-count-form", False, "record_count is not a single division len / total_size (found %d division nodes): %s" % (len(divs), canon(peel(x))[:240]))
             else:
-                num, den = peel(form[0]), peel(form[1], widen=True)
+                d = divs[0]
+                num, den = (peel(d[3][0]), peel(d[3][1], widen=True)) if d[0] == "call" else (peel(d[2]), peel(d[3], widen=True))
                 okn = num[0] == "call" and num[2].npath.endswith("<impl [T]>::len") and peel(num[3][0]) == ("arg", 1)
-                okd = den[0] == "call" and den[2].local and den[2].path.endswith("Template::get_total_size") and find(den, lambda n: n == ("arg", 2))
-                ctx.ob("R4.4", fp.path, "record-count=len/total_size", bool(okn and okd), "numerator %s, denominator %s" % (canon(num)[:80], canon(den)[:120]))
-        gts = prog.body(V9 + "Template::get_total_size")
-        if ctx.anchor("R4.4", V9 + "Template::get_total_size", gts):
-            ret = peel(an.local(gts, 0))
-            ok = False
-            why = canon(ret)[:240]
-            if ret[0] == "call" and ret[2].nsyn == "std::iter::Iterator::fold":
-                it = peel(ret[3][0], identity=())
-                init = const_eval(ret[3][1])
-                clo = peel(ret[3][2], identity=(), casts=False)
-                src_ok = it[0] == "call" and it[2].npath.endswith("<impl [T]>::iter") and peel(it[3][0])[0] == "field" and peel(it[3][0])[2] == "fields"
-                step_ok = False
-                if clo[0] == "closure":
-                    res = peel(an.interp.apply(clo, [("sym", "acc"), ("sym", "item")]))
-                    step_ok = res[0] == "call" and res[2].npath.endswith("::saturating_add") and canon(peel(res[3][0])) == canon(("sym", "acc")) \
-                        and peel(res[3][1])[0] == "field" and peel(res[3][1])[2] == "field_length" and peel(peel(res[3][1])[1]) == ("sym", "item")
-                    why = "fold(%s, %s, |acc, f| %s)" % (canon(it)[:60], init, canon(res)[:120])
-                ok = src_ok and init == {0} and step_ok
-            ctx.ob("R4.4", gts.path, "total=Σ field_length over all fields", ok, why)
+                # nothing additive outside the division
+                def additive(n):
+                    if n[0] == "binop" and n[1].replace("WithOverflow", "") in ("Add", "Sub", "Mul", "Shl", "Shr"):
+                        return True
+                    if n[0] == "call" and n[2] is not None and re.search(r"::(saturating_add|saturating_sub|wrapping_add|wrapping_sub|checked_add|checked_sub|saturating_mul|max|min|pow)$", n[2].npath):
+                        return True
+                    return False
+                outer = find(x, additive)
+                inner = find(den, additive) + find(num, additive)
+                inner_c = set(canon(i) for i in inner)
+                extra = [o for o in outer if canon(o) not in inner_c and canon(o) not in canon(den)]
+                ctx.ob("R4.4", fp.path, "record-count=len/total_size", bool(okn) and not extra,
+                       "numerator %s; additive terms outside the division: %s" % (canon(num)[:80], [canon(e)[:60] for e in extra]))
+                # denominator = Σ field_length (fold of saturating_add over all fields), possibly through a private helper
+                ok = False
+                why = canon(den)[:240]
+                if den[0] == "call" and den[2].nsyn == "std::iter::Iterator::fold":
+                    it = peel(den[3][0], identity=())
+                    init = const_eval(den[3][1])
+                    clo = peel(den[3][2], identity=(), casts=False)
+                    src_ok = it[0] == "call" and it[2].npath.endswith("<impl [T]>::iter") and peel(it[3][0])[0] == "field" and peel(it[3][0])[2] == "fields"
+                    step_ok = False
+                    if clo[0] == "closure":
+                        res = peel(an.interp.apply(clo, [("sym", "acc"), ("sym", "item")]))
+                        step_ok = res[0] == "call" and res[2].npath.endswith("::saturating_add") and canon(peel(res[3][0])) == canon(("sym", "acc")) \
+                            and peel(res[3][1])[0] == "field" and peel(res[3][1])[2] == "field_length" and peel(peel(res[3][1])[1]) == ("sym", "item")
+                        why = "fold(%s, %s, |acc, f| %s)" % (canon(it)[:60], init, canon(res)[:120])
+                    ok = src_ok and init == {0} and step_ok
+                ctx.ob("R4.4", fp.path, "total=Σ field_length over all fields", ok, why)
         Ld = lay.parser_layout(V9 + "Data::parse_be")
         okp = Ld["ok"] and len(Ld["steps"]) == 2 and Ld["steps"][1]["fields"] == ["padding"] and Ld["steps"][1]["term"][0] == "vec" and Ld["steps"][1]["term"][1] == "u8"
         ctx.ob("R4.4", V9 + "Data::parse_be", "padding-is-rest", bool(okp), "steps: %s" % [(s["fields"], term_s(s["term"])[:60]) for s in Ld["steps"]])
